@@ -32,6 +32,7 @@ func (u *Unit) closureNamesOf(v ssa.Value) []string {
 
 func runC42(c *Ctx) {
 	u, r := c.U, c.R
+	seedfixC42(c)
 	// ---- R-CONN-ISOLATION
 	for _, name := range []string{"(*Server).serveUnixConn", "(*Server).serveTcpConn", "(*Server).ServeWithContext"} {
 		fn := c.Fn("R-CONN-ISOLATION", name)
